@@ -2395,7 +2395,112 @@ TP_REGIMES = {
 TP_PLANS = [[0.0], [1.0 - 2.0 ** -53], [2.0 ** -53], [0.5], EXTREME_U, [0.0, 1.0 - 2.0 ** -53], [1.0 - 2.0 ** -24, 2.0 ** -30, 0.25]]
 
 
-def unit_trunc(ctx, rng):
+def direct_guard(ctx, drv, rng):
+    """the argument checks of `_sampling_from_sequences` (second extension round): `sample(deg_seq=d, dim_seq=m)` on a sampler whose
+    attribute `matching_sequences` holds None / False / True from earlier calls, with degree sequences of the wrong length and sizes
+    around N: which `assert` fires, whether `_match_sequences` is reached, the attribute after the call - against C16.argGuard /
+    C16.callStepG (a refused call delivers nothing and leaves the attribute untouched)"""
+    import numpy as np
+    from hypergraphx.generation.hy_mmsbm_sampling import HyMMSBMSampler
+    N = rng.randint(2, 6)
+    seed = rng.randint(0, 10**6)
+    s = HyMMSBMSampler(u=np.ones((N, 1)), w=np.ones((1, 1)), burn_in_steps=0, intermediate_steps=0, seed=seed)
+    prior = rng.choice([None, False, True])
+    L = rng.choice([N, N, N, N - 1, N + 1, 0, N + 2])
+    deg = [rng.choice([1, 1, 2, 3]) for _ in range(L)]
+    sizes = rng.sample(range(2, N + 3), rng.randint(1, min(3, N + 1)))
+    if rng.random() < 0.5:
+        sizes = [k for k in sizes if k <= N] or [2]
+    dim = [[int(k), rng.choice([0, 1, 1, 2])] for k in sizes]
+    stop_inside = rng.random() < 0.5
+    case = {"mode": "guard", "N": N, "seed": seed, "prior": prior, "deg_seq": deg, "dim_seq": dim, "stop_inside": stop_inside}
+    ctx.case(repr(sorted((k, repr(v)) for k, v in case.items())), True, sample=case)
+    ctx.count("direct_guard")
+    entered = []
+    real_match = s._match_sequences
+
+    class _Stop(BaseException):
+        pass
+
+    def rec_match(*a, **k):
+        entered.append(s.matching_sequences)
+        if stop_inside:
+            raise _Stop()
+        return real_match(*a, **k)
+    s._match_sequences = rec_match
+    s.matching_sequences = prior
+    verdict, exc = None, None
+    try:
+        with time_limit(5):
+            next(s.sample(deg_seq=np.array(deg, dtype=int), dim_seq={k: v for k, v in dim}, allow_rescaling=False))
+        verdict = "ok"
+    except _Stop:
+        verdict = "ok"
+    except Timeout:
+        ctx.violation(case, "sample(deg_seq, dim_seq) did not deliver its first sample within the time limit")
+        return
+    except AssertionError as e:
+        verdict = "ok" if entered else ("badDim" if str(e).startswith("The dimension sequence") else "badShape")
+        exc = "AssertionError"
+    except Exception as e:  # noqa: BLE001 - an exception is an observation
+        verdict = "ok" if entered else f"exc:{type(e).__name__}"
+        exc = type(e).__name__
+    after = s.matching_sequences
+    ctx.count("direct_guard_" + str(verdict))
+    want = "ok" if (len(deg) == N and all(k <= N for k, _ in dim)) else ("badShape" if len(deg) != N else "badDim")
+    if verdict != want:
+        ctx.violation(case, f"sample(deg_seq, dim_seq) on a model with {N} nodes: argument checks answered {verdict} ({exc}), `_match_sequences` "
+                      f"{'was' if entered else 'was not'} entered; a degree sequence of length N and sizes <= N are accepted, anything else is refused: {want}")
+    if bool(entered) != (want == "ok"):
+        ctx.violation(case, f"`_match_sequences` {'was' if entered else 'was not'} entered although the arguments are {'valid' if want == 'ok' else 'invalid'}")
+    if want != "ok" and after is not prior:
+        ctx.violation(case, f"a call refused by the argument checks changed `matching_sequences` from {prior} to {after}")
+    if drv is not None:
+        fl = lambda v: "-" if v is None else ("1" if v else "0")    # noqa: E731
+        dm = hgxv.enc_lists(dim)
+        lines = [f"guard {N} {hgxv.enc_list(deg)} {dm}"]
+        if want != "ok":
+            lines += [f"setstate {fl(prior)}", f"callseqsN {N} {hgxv.enc_list(deg)} {dm} {hgxv.enc_lists([])} {enc_steps([])} {enc_blocks([])} {hgxv.enc_lists([])}"]
+        ans = drv.batch(lines)
+        if ans[0] != verdict:
+            ctx.disagree({**case, "line": lines[0]}, f"argument checks: model {ans[0]} implementation {verdict}")
+        if want != "ok" and (ans[1] != "ok" or ans[2] != f"none {fl(after)}"):
+            ctx.disagree({**case, "line": lines[2]}, f"refused call: model {ans[1:]} implementation delivered nothing and left {fl(after)}")
+
+
+def tp_model_line(ctx, drv, case, mean, u, val):
+    """one draw of the unit stream against the model of the inverse-cdf scheme (C16.truncDrawTab on exact rationals: the uniform,
+    exp(-rate), nextafter(1, 0) and scipy's own Poisson cdf table as the doubles they are).  The model computes p exactly, numpy in
+    doubles, and scipy inverts the cdf through a continuous inverse: a different draw counts only when p is not within 1e-9
+    (relative) of the cdf boundary that would explain it."""
+    import numpy as np
+    from fractions import Fraction
+    from scipy import stats
+    k = nat_of(val)
+    if drv is None or k is None or k < 1 or k > 60 or not (mean == mean) or not (0.0 <= u < 1.0):
+        return
+    with np.errstate(all="ignore"):
+        e = float(np.exp(-mean))
+        tab = [float(x) for x in stats.poisson.cdf(np.arange(k + 3), mean)]
+    pmax = float(np.nextafter(1.0, 0.0))
+    if not all(math.isfinite(x) for x in tab) or tab[0] <= 0.0 or e < 2.3e-308:
+        return          # rates beyond ~708: exp(-rate) is subnormal / 0 and scipy's cdf(0) underflows - no table with cdf 0 = e > 0 in doubles
+    q = lambda x: (lambda f: f"{f.numerator}/{f.denominator}")(Fraction(float(x)))    # noqa: E731
+    ln = f"tpois {q(u)} {q(e)} {q(pmax)} {','.join(q(x) for x in tab)}"
+    a = drv.ask(ln)
+    ctx.count("tp_model_lines")
+    if a == str(k):
+        return
+    pf = min(u + (1.0 - u) * e, pmax)
+    tol = 1e-9
+    if pf * (1 - tol) <= tab[k] and (k == 1 or tab[k - 1] < pf * (1 + tol)):
+        ctx.count("tp_model_boundary")
+        return
+    ctx.disagree({**case, "line": ln[:400]}, f"sample_truncated_poisson, rate {mean}, uniform {u!r}: model draw {a}, implementation {k} "
+                 f"(p = {pf!r}, cdf around it {tab[max(0, k - 2):k + 1]})")
+
+
+def unit_trunc(ctx, rng, drv=None):
     """documented contract of sample_truncated_poisson (Y = X | X > 0: every draw an integer >= 1, one per rate, finite) for
     every rate regime, homogeneous and mixed 1-D arrays, scalars (float, int, numpy scalar), under the scripted
     generator; the same script gives the same values"""
@@ -2441,6 +2546,12 @@ def unit_trunc(ctx, rng):
     if len(vals) != len(means):
         ctx.violation(case, f"sample_truncated_poisson returned {len(vals)} values for {len(means)} rates")
         return
+    if drv is not None and vals:
+        try:
+            i = seed % len(vals)            # no draw from the stream: the older cases stay what they were per seed
+            tp_model_line(ctx, drv, case, means[i], float(plan[i % len(plan)]), vals[i])
+        except Exception as e:  # noqa: BLE001
+            ctx.disagree(case, f"truncated-Poisson draw cannot be put to the model: {type(e).__name__}: {e}")
     bad = [(i, float(vals[i]), means[i]) for i in range(len(vals)) if (nat_of(vals[i]) or 0) < 1]
     if bad:
         ctx.violation(case, "sample_truncated_poisson (Y = X | X > 0) returned values that are no integers >= 1 (index, value, rate): "
@@ -2574,6 +2685,29 @@ def check_degenerate(ctx, drv, case):
                     ctx.disagree({**case, "line": ln}, f"sample with degenerate hyperedges in the chain state: model {got if got is not None else a} implementation {want}")
         except Exception as e:  # noqa: BLE001
             ctx.disagree(case, f"recorded run cannot be encoded for the model: {type(e).__name__}: {e}")
+    if drv is not None and t1.routine and r1["exc"] is None and not has_empty and case["mode"] == "hyg" and "h0" in r1:
+        # the WHOLE run as one model run (C16.sampleFromHygD, second extension round: no hypothesis on sizes; theorems
+        # C16_sample_hyg_all_sizes / C16_run_agrees): labels, hyperedges of the initial hypergraph, recorded steps, quantile tape
+        try:
+            n_y = len(t1.routine["yields"])
+            burn, blocks = split_steps(t1, case["burn"], case["thin"], n_y)
+            tape = quantile_tape(t1)
+            n_out = min(len(r1["out"]), len(tape), len(blocks))
+            h0 = r1["h0"]
+            nodes = sorted(h0.get_nodes())
+            code = {plain(x): 3 + 7 * i for i, x in enumerate(nodes)}
+            edges = [[code[plain(x)] for x in e] for e in h0.get_edges()]
+            if n_out > 0 and all(all(int(x) >= 0 for x in tq) for tq in tape[:n_out]):
+                ln = (f"fromhygD {hgxv.enc_list([code[plain(x)] for x in nodes])} {hgxv.enc_lists(edges)} {enc_steps(burn)} "
+                      f"{enc_blocks(blocks[:n_out])} {hgxv.enc_lists([[int(x) for x in tq] for tq in tape[:n_out]])}")
+                want = [sorted(((tuple(sorted(code[x] for x in e)), int(wt)) for e, wt in o), key=repr) for o in r1["out"][:n_out]]
+                a = drv.ask(ln)
+                got = None if a in ("none", "bad-op") else [sorted(o, key=repr) for o in dec_outs(a)]
+                ctx.count("degenerate_whole_run_replays")
+                if got != want:
+                    ctx.disagree({**case, "line": ln}, f"whole run from an initial hypergraph with degenerate hyperedges: model {got if got is not None else a} implementation {want}")
+        except Exception as e:  # noqa: BLE001
+            ctx.disagree(case, f"recorded run cannot be encoded for the model (whole run): {type(e).__name__}: {e}")
     if drv is not None and t1.routine and r1["exc"] is None and not has_empty:
         # the chain itself (sizes are immaterial to the reshuffle) on the model
         try:
@@ -2637,6 +2771,7 @@ def run(ctx):
     import random
     xr = random.Random(ctx.seed * 7919 + 16)
     fr = random.Random(ctx.seed * 104729 + 1606)
+    gr = random.Random(ctx.seed * 15485863 + 1616)    # second extension round (argument checks), own PRNG
     for i in range(n):
         case = gens[i % 4](ctx.rng)
         check_case(ctx, drv, case)
@@ -2654,7 +2789,8 @@ def run(ctx):
         direct_dict(ctx, drv, ctx.rng)
         # round f (own PRNG again)
         for _ in range(3):
-            unit_trunc(ctx, fr)
+            unit_trunc(ctx, fr, drv)
+        direct_guard(ctx, drv, gr)
         if i % 3 == 0:
             check_degenerate(ctx, drv, gen_degenerate(fr))
         if i % 3 == 1:
